@@ -69,6 +69,8 @@ def random_ops(rng, s, mode, with_args, n):
         if x < 0.38 or not (live or done):
             nent += 1
             o = dict(op='entry', res=rng.choice(['r1', 'r1', 'r2']), b=rng.choice([0, 1, 1, 1, 2, 5]), inb=rng.random() < 0.5, xh='')
+            if rng.random() < 0.3:
+                o['rt'] = rng.choice([0, 1, 2, 3, 4])       # the same resource entered with different resource types
             if mode == 'stat':
                 o['so'] = rng.choices(['pass', 'block', 'panicPre', 'panicRule'], [6, 3, 1, 1])[0]
                 if with_args and rng.random() < 0.6:
@@ -102,7 +104,7 @@ def random_ops(rng, s, mode, with_args, n):
 
 def random_stat(c, tr):
     rng = c.rng
-    s = [dict(op='new', tr=tr, mode='stat', t=rng.choice([1, 100, 499, 500, 777]), nodes=NODES)]
+    s = [dict(op='new', tr=tr, mode='stat', t=rng.choice([1, 100, 499, 500, 777]), nodes=NODES, **({'empty': 'r2'} if rng.random() < 0.12 else {}))]
     slots = [dict(op='slot', k='pre', ord=1000, beh='real'), dict(op='slot', k='stat', ord=1000, beh='real')]
     for _ in range(rng.choice([1, 1, 2])):       # scripted prepare slot before / after / tied with the real one
         slots.append(dict(op='slot', k='pre', ord=rng.choice([500, 1000, 2000]), beh='script'))
@@ -118,7 +120,8 @@ def random_stat(c, tr):
 def random_global(c, tr):
     rng = c.rng
     s = [dict(op='new', tr=tr, mode='global', t=rng.choice([1, 100, 499, 500]), nodes=NODES,
-              iso={'r1': rng.choice([1, 2, 3])} if rng.random() < 0.8 else {}, hot=rng.choice([['r1'], ['r1', 'r2'], ['r2']]))]
+              iso={'r1': rng.choice([1, 2, 3])} if rng.random() < 0.8 else {}, hot=rng.choice([['r1'], ['r1', 'r2'], ['r2']]),
+              **({'empty': 'r2'} if rng.random() < 0.12 else {}))]
     return random_ops(rng, s, 'global', rng.random() < 0.25, rng.randint(6, 20))
 
 
